@@ -29,7 +29,7 @@ ASSUME = ["`garden format` = format::format applied to the line-normalised file 
           "the 2 % CLI sample: a disagreement between hook and CLI output is reported as inconclusive)"]
 BATCH = 150
 FLOOR = {"quick": 150, "thorough": 400}
-BUDGET = {"quick": 45, "thorough": 780}
+BUDGET = {"quick": 45, "thorough": 600}
 CLI_PERCENT = 2.0
 
 CLASSES = [
@@ -78,8 +78,7 @@ def diff_class(f1, f2):
         if x == y:
             continue
         if x.strip() == y.strip():
-            kinds.add("trailing-space" if x.lstrip() != y.lstrip() and x.rstrip() != y.rstrip() and False else
-                      ("indent" if x.lstrip() == y.lstrip() else "trailing-space"))
+            kinds.add("indent" if x.lstrip() == y.lstrip() else "trailing-space")
         else:
             kinds.add("inner-spacing")
     return "+".join(sorted(kinds)) or "unknown"
